@@ -131,7 +131,8 @@ from pyvc.ty import TDict  # noqa: E402,F811
 from pyvc import exec as _X  # noqa: E402
 import z3 as _z3  # noqa: E402
 
-VDict = dict_class("ViolationRecord", fixes=TOpt(TList(SINK)), warning=TOpt(BOOL))
+VDict = dict_class("ViolationRecord", fixes=TOpt(TList(SINK)), warning=TOpt(BOOL), code=SINK, description=SINK,
+                   start_line_no=SINK, start_line_pos=SINK)
 Record = dict_class("LintingRecord", filepath=Text, violations=TList(VDict))
 SQLBaseErrorF = ref_class("sqlfluff.core.errors:SQLBaseError", fixes=TList(SINK))
 LintedDirD = ref_class("sqlfluff.core.linter.linted_dir:LintedDir", _records=TList(Record),
@@ -187,7 +188,7 @@ def counted(d, old, i, j):
             and not d._records[i].violations[j].warning)
 
 
-@contract("sqlfluff.core.linter.linted_dir:LintedDir.discard_fixes_for_lint_errors_in_files_with_tmp_or_prs_errors", PROP)
+@contract("sqlfluff.core.linter.linted_dir:LintedDir.discard_fixes_for_lint_errors_in_files_with_tmp_or_prs_errors", (PROP, "C22"))
 class dir_discard:
     types = {"self": LintedDir}
     modifies = ["self.num_unfixable_lint_errors", "heap:ViolationRecord.fixes", "heap:SQLBaseError.fixes"]
